@@ -115,6 +115,10 @@ def scenario(params, ch):
         w.run(2)
         data = payload(1, size)
         w.fates = list(fates)
+        if other == "last-in-datagram":
+            # queued in the same frame behind other messages: the guaranteed message is the LAST of the datagram
+            app_send(w, mon, sender, payload(2, 25), "none")
+            app_send(w, mon, sender, payload(4, 23), "best")
         e = app_send(w, mon, sender, data, "retry", tag="g", api=method)
         if e is not None:
             ch.flag("send-raises", "%s raises %s" % (api, type(e).__name__), "%s(len %d) raised %r" % (api, size, e))
@@ -127,6 +131,10 @@ def scenario(params, ch):
             e2 = app_send(w, mon, sender, second, "retry", tag="g2", api=method)
             if e2 is not None:
                 ch.flag("send-raises", "%s raises %s" % (api, type(e2).__name__), repr(e2))
+        elif other in ("last-in-datagram", "first-in-datagram"):
+            if other == "first-in-datagram":
+                app_send(w, mon, sender, payload(2, 25), "none")
+                app_send(w, mon, sender, payload(4, 23), "retry")
         elif other == "burst":
             # the message leaves alone in its datagram, then the same sender bursts 300 tiny messages:
             # a retransmission of the guaranteed message arrives behind >256 newer message numbers
@@ -219,6 +227,11 @@ def params_list(tier):
                 if tier == "quick" and api in ("c.send(retry=-1)", "s.send(RETRY_ON_TIMEOUT)") and size not in (0, caps(mtu)[0]):
                     continue
                 out.append((api, size, mtu, ("drop",), None, False, "cs", 1, 4))
+    # the guaranteed message shares its datagram with others, as the first / the last message
+    for api in APIS:
+        for size in (0, 1, 2, 40, caps(1500)[0] - 30):
+            for pos in ("last-in-datagram", "first-in-datagram"):
+                out.append((api, size, 1500, ("drop",), None, pos, "cs", 1, 4))
     # part "loss": representative sizes, richer fates, blackouts, other traffic
     reps = [(1500, 40), (1500, 1434), (1500, 2500), (512, 700), (1500, 3200)]
     fates = ("drop", "dup", "delay8", "delay70")
